@@ -30,6 +30,7 @@ class Ob:
         self.stubs = attrs.get("stubs", "")
         self.extra = attrs.get("kani", "")  # extra cargo-kani arguments
         self.nocover = attrs.get("nocover") == "1"
+        self.allow = attrs.get("allow")  # failures whose description contains this text are expected panics
 
     @property
     def name(self):
@@ -157,7 +158,9 @@ def run_harness(ob, logdir):
     unwinding = [f for f in r["failed"] if "unwinding assertion" in f["description"]]
     unsupported = [f for f in r["failed"] if "is not currently supported by Kani" in f["description"]
                    or "unsupported" in f["description"].lower()]
-    real_fail = [f for f in r["failed"] if f not in unwinding and f not in unsupported]
+    real_fail = [f for f in r["failed"] if f not in unwinding and f not in unsupported
+                 and not (ob.allow and ob.allow in f["description"])]
+    expected_only = bool(r["failed"]) and not real_fail and not unwinding and not unsupported
     unsat_covers = [d for d, s in r["covers"] if s != "SATISFIED"]
     if to:
         r["class"] = "inconclusive"; r["why"] = "timeout after %ds" % ob.timeout
@@ -169,7 +172,9 @@ def run_harness(ob, logdir):
             sorted(set(f["description"] + " @ " + f["location"] for f in unwinding + unsupported))[:4])
     elif real_fail:
         r["class"] = "fail"; r["why"] = "; ".join(sorted(set(f["description"] for f in real_fail))[:6])
-    elif r["verdict"] == "FAILED":
+    elif "Out of memory" in out or "std::bad_alloc" in out:
+        r["class"] = "inconclusive"; r["why"] = "solver ran out of memory (limit %g GB)" % ob.mem
+    elif r["verdict"] == "FAILED" and not expected_only:
         r["class"] = "inconclusive"; r["why"] = "FAILED without a failed check that could be parsed"
     elif r["undetermined"]:
         r["class"] = "inconclusive"; r["why"] = "%d checks undetermined" % r["undetermined"]
